@@ -296,7 +296,50 @@ def r54(facts, res):
             res.ok(R, 'lr-step:' + name, loc_of(b), 'same LR step as its siblings (lookup key, reduce, shift, accept/error)')
 
 
+def r55(facts, res):
+    """reported repairs name the lexemes they consume: Delete and Shift each consume one input lexeme, Insert none"""
+    R = 'R5.5'
+    fs = [x for x in facts.lib_bodies(['lrpar']) if x.name == 'repair_to_parse_repair']
+    if len(fs) != 1:
+        res.lost(R, 'repair_to_parse_repair not found')
+        return
+    clos = facts.closures_of(fs[0])
+    if len(clos) != 1:
+        res.lost(R, 'expected one mapping closure in repair_to_parse_repair, found %d' % len(clos))
+        return
+    c = clos[0]
+    rp = facts.adt('lrpar::cpctplus::Repair')
+    vn = {v['discr']: v['name'] for v in rp['variants']}
+    want = {'InsertTerm': ('Insert', False), 'Delete': ('Delete', True), 'Shift': ('Shift', True)}
+    seen = {}
+    for p in Walker(c, facts, max_paths=64).run():
+        if p.end[0] != 'return':
+            continue
+        dv = [v for cd, v in p.conds if cd[0] == 'discr']
+        if not dv or not isinstance(dv[0], int):
+            continue
+        kind = vn.get(dv[0])
+        out = p.end[1][3] if p.end[1][0] == 'variant' else '?'
+        adv = [e for e in p.stores() if isinstance(e[3], tuple) and e[3][0] == 'bin' and e[3][1] == 'Add' and e[3][3] == ('const', 1)]
+        lex_ok = True
+        if kind in ('Delete', 'Shift'):
+            nl = find_calls(p.end[1], 'next_lexeme')
+            lex_ok = bool(nl) and bool(adv) and nl[0][2][1] == adv[0][3][2]
+        seen[kind] = (out, bool(adv), lex_ok)
+    for kind, (wout, wadv) in want.items():
+        got = seen.get(kind)
+        key = 'repair-map:' + kind
+        if got is None:
+            res.bad(R, key, loc_of(c), 'no path maps Repair::%s' % kind)
+        elif got[0] == wout and got[1] == wadv and got[2]:
+            res.ok(R, key, loc_of(c), '%s -> %s%s' % (kind, wout, '(next_lexeme(laidx)), laidx += 1' if wadv else ', input index unchanged'))
+        else:
+            res.bad(R, key, loc_of(c), 'Repair::%s is reported as %s, input index %s%s: every Delete and Shift consumes exactly one input lexeme (the one it names), an Insert none'
+                    % (kind, got[0], 'advanced' if got[1] else 'NOT advanced', '' if got[2] else ', lexeme not taken at the running index'))
+
+
 def run(facts, res):
+    r55(facts, res)
     r51(facts, res)
     r52(facts, res)
     r53(facts, res)
